@@ -12,7 +12,8 @@ A configuration (`Cfg`, emitted by harness/rtp_family.py from the module the rea
                (`germinateSigned`), it is not data;
   * `irIn`     per index the `Irreps` of that index, expanded to multiplicity 1, as `(l, odd)`;
   * `irOut`    `irreps_out`, expanded, in row order;
-  * `Q`        the buffer `change_of_basis`, every float lifted to `±(n/d)√r` (rows = flattened row-major tensors);
+  * `Q`        the buffer `change_of_basis`, every float lifted to `±(n/d)√r`; row `z` is the nested list
+               `Q[z][x₁]…[xₙ]` (type `Tens irIn`), so every check is a structural recursion over the index list;
   * `complete` no `filter_ir_out` / `filter_ir_mid` was given, i.e. the rows are claimed to span all symmetric tensors.
 -/
 namespace E3nnVerif.Model.RTP
@@ -21,20 +22,31 @@ open E3nnVerif.Exact E3nnVerif.Model.Wigner E3nnVerif.ReduceModel
 /-- one irreducible block: degree `l`, flag `odd` (parity −1) -/
 abbrev Ir := Nat × Bool
 
+def irDim : List Ir → Nat
+  | [] => 0
+  | ir :: rest => 2 * ir.1 + 1 + irDim rest
+
+/-- nested tensor with one level per index -/
+def Tens : List (List Ir) → Type
+  | [] => SqrtQ
+  | _ :: L => List (Tens L)
+
+/-- the zero tensor (missing entries read as zero everywhere below) -/
+def tz : (L : List (List Ir)) → Tens L
+  | [] => ([] : SqrtQ)
+  | _ :: _ => ([] : List _)
+
 structure Cfg where
   terms : List SPerm
   irIn : List (List Ir)
   irOut : List Ir
   complete : Bool
-  Q : List (List SqrtQ)
-
-def irDim : List Ir → Nat
-  | [] => 0
-  | ir :: rest => 2 * ir.1 + 1 + irDim rest
+  Q : List (Tens irIn)
 
 def Cfg.dims (c : Cfg) : List Nat := c.irIn.map irDim
 def Cfg.D (c : Cfg) : Nat := irDim c.irOut
 def Cfg.nIdx (c : Cfg) : Nat := c.irIn.length
+def Cfg.row (c : Cfg) (z : Nat) : Tens c.irIn := c.Q.getD z (tz c.irIn)
 
 /-- the group `germinate_formulas` returns (C17's model of the closure loop) -/
 def Cfg.group (c : Cfg) : List SPerm :=
@@ -66,84 +78,130 @@ def blocksFrom (o : Nat) : List Ir → List (Nat × Nat)
   | [] => []
   | ir :: rest => (o, ir.1) :: blocksFrom (o + (2 * ir.1 + 1)) rest
 
-/-! ### multi-indices -/
+/-! ### nested tensors -/
 
-/-- `p x` for every multi-index `x < dims` -/
-def allIdx : List Nat → (List Nat → Bool) → Bool
-  | [], p => p []
-  | d :: ds, p => (List.range d).all fun k => allIdx ds fun t => p (k :: t)
-
-/-- `Σ_x f x · g x` over all multi-indices, skipping `g x = 0` -/
-def sumIdx2 : List Nat → (List Nat → SqrtQ) → (List Nat → SqrtQ) → SqrtQ
-  | [], f, g => let y := g []; bif y.isZero then [] else f [] * y
-  | d :: ds, f, g => dotRange d fun k => sumIdx2 ds (fun t => f (k :: t)) (fun t => g (k :: t))
-
-def validIdx : List Nat → List Nat → Bool
-  | [], [] => true
-  | d :: ds, x :: xs => Nat.blt x d && validIdx ds xs
-  | _, _ => false
-
-/-- entry of a flattened (row-major) tensor -/
-def entry (dims : List Nat) (row : List SqrtQ) (x : List Nat) : SqrtQ := row.getD (ReduceModel.flatIndex dims x) []
-
-def Cfg.row (c : Cfg) (z : Nat) : List SqrtQ := c.Q.getD z []
-/-- `Q[z, x₁, …, xₙ]` -/
-def Cfg.q (c : Cfg) (z : Nat) (x : List Nat) : SqrtQ := entry c.dims (c.row z) x
+/-- syntactic zero test (`SqrtQ` sums and products are pruned, so a zero result is `[]`); sound: `[]` denotes 0 -/
+def isNil : SqrtQ → Bool
+  | [] => true
+  | _ :: _ => false
 
 def allRange (n : Nat) (p : Nat → Bool) : Bool := (List.range n).all p
 
+/-- `p x` for every multi-index `x` of the index list `L` -/
+def allIdxL : (L : List (List Ir)) → (List Nat → Bool) → Bool
+  | [], p => p []
+  | s :: L, p => allRange (irDim s) fun k => allIdxL L fun t => p (k :: t)
+
+def validIdxL : (L : List (List Ir)) → List Nat → Bool
+  | [], [] => true
+  | s :: L, x :: xs => Nat.blt x (irDim s) && validIdxL L xs
+  | _, _ => false
+
+/-- `t[x₁]…[xₙ]` -/
+def tget : (L : List (List Ir)) → Tens L → List Nat → SqrtQ
+  | [], v, _ => v
+  | _ :: _, _, [] => []
+  | _ :: L, t, k :: ks => tget L (t.getD k (tz L)) ks
+
+/-- full-shape tensor of zeros -/
+def tfull : (L : List (List Ir)) → Tens L
+  | [] => ([] : SqrtQ)
+  | s :: L => (List.range (irDim s)).map fun _ => tfull L
+
+/-- `Σ_x a[x] · b[x]` (skipping zero factors) -/
+def tdot : (L : List (List Ir)) → Tens L → Tens L → SqrtQ
+  | [], a, b => bif isNil a || isNil b then [] else SqrtQ.mul a b
+  | s :: L, a, b => dotRange (irDim s) fun k => tdot L (a.getD k (tz L)) (b.getD k (tz L))
+
+/-- `acc + v · a`, full shape -/
+def taxpy (v : SqrtQ) : (L : List (List Ir)) → Tens L → Tens L → Tens L
+  | [], a, acc => bif isNil a then acc else SqrtQ.add acc (SqrtQ.mul v a)
+  | s :: L, a, acc => (List.range (irDim s)).map fun k => taxpy v L (a.getD k (tz L)) (acc.getD k (tz L))
+
+/-- replace the entry at the (valid) multi-index `x` by `f` of it, full shape -/
+def tupd (f : SqrtQ → SqrtQ) : (L : List (List Ir)) → Tens L → List Nat → Tens L
+  | [], v, _ => f v
+  | _ :: _, t, [] => t
+  | s :: L, t, k :: ks =>
+    (List.range (irDim s)).map fun i => bif Nat.beq i k then tupd f L (t.getD i (tz L)) ks else t.getD i (tz L)
+
+/-- every entry (of the shape of `L`) of `a - b` is zero -/
+def teq : (L : List (List Ir)) → Tens L → Tens L → Bool
+  | [], a, b => SqrtQ.isZero (SqrtQ.sub a b)
+  | s :: L, a, b => allRange (irDim s) fun k => teq L (a.getD k (tz L)) (b.getD k (tz L))
+
+def tallZero : (L : List (List Ir)) → Tens L → Bool
+  | [], a => isNil a
+  | s :: L, a => allRange (irDim s) fun k => tallZero L (a.getD k (tz L))
+
+/-- `t · (X₁⊗1⊗… + … + 1⊗…⊗Xₙ)` for `X_k = direct_sum(so3_generators(l)[a])` of index `k`:
+    `out[x] = Σ_k Σ_y t[x with x_k ← y] · X_k[y, x_k]` -/
+def tks (a : Nat) : (L : List (List Ir)) → Tens L → Tens L
+  | [], _ => ([] : SqrtQ)
+  | s :: L, t =>
+    let X := bdMat a s
+    (List.range (irDim s)).map fun x1 =>
+      (List.range (irDim s)).foldl
+        (fun acc y => let c := X.get y x1; bif isNil c then acc else taxpy c L (t.getD y (tz L)) acc)
+        (tks a L (t.getD x1 (tz L)))
+
 /-! ### the checks -/
 
-def shapeCheck (c : Cfg) : Bool :=
-  let N := c.dims.foldl (· * ·) 1
-  c.Q.length == c.D && c.Q.all fun r => r.length == N
+def twf : (L : List (List Ir)) → Tens L → Bool
+  | [], _ => true
+  | s :: L, t => t.length == irDim s && t.all (twf L)
+
+def shapeCheck (c : Cfg) : Bool := c.Q.length == c.D && c.Q.all (twf c.irIn)
 
 /-- the recomputed group is non-empty, its signs are `±1`, it contains the formula's terms, and permuting a valid
     multi-index by a group element gives a valid multi-index (indices exchanged by the formula have equal dimension) -/
 def groupCheck (c : Cfg) : Bool :=
   let G := c.group
   !G.isEmpty && (G.all fun a => a.1 == 1 || a.1 == -1) && (c.terms.all fun t => G.contains t) &&
-  allIdx c.dims fun x => G.all fun a => validIdx c.dims (act x a.2)
+  allIdxL c.irIn fun x => G.all fun a => validIdxL c.irIn (act x a.2)
 
-/-- (i) `Q Qᵀ = 1` -/
+/-- (i) `Q Qᵀ = 1` (pairs `z ≤ z'`) -/
 def orthoCheck (c : Cfg) : Bool :=
   all2 c.D c.D fun z z' =>
-    (sumIdx2 c.dims (c.q z) (c.q z') - (if z == z' then SqrtQ.one else [])).isZero
+    Nat.blt z' z || (tdot c.irIn (c.row z) (c.row z') - (if z == z' then SqrtQ.one else [])).isZero
 
 def sgnMul (s : Int) (v : SqrtQ) : SqrtQ := if s == 1 then v else -v
 
 /-- (ii) every row satisfies every formula of the group: `Q[z, x] = s · Q[z, x∘p]` -/
 def symCheck (c : Cfg) : Bool :=
   let G := c.group
-  allRange c.D fun z => allIdx c.dims fun x => G.all fun a =>
-    (c.q z x - sgnMul a.1 (c.q z (act x a.2))).isZero
+  allRange c.D fun z => allIdxL c.irIn fun x => G.all fun a =>
+    (tget c.irIn (c.row z) x - sgnMul a.1 (tget c.irIn (c.row z) (act x a.2))).isZero
 
-/-- numerator of the group-average projector: `Σ_{(s,p) ∈ G, x∘p = y} s` -/
-def pavgNum (G : List SPerm) (x y : List Nat) : Int :=
-  G.foldl (fun acc a => if act x a.2 == y then acc + a.1 else acc) 0
+/-- `|G| · (QᵀQ)[x, ·]` as a tensor: `Σ_z (|G| · Q[z,x]) · Q[z, ·]` -/
+def mRow (c : Cfg) (x : List Nat) : Tens c.irIn :=
+  (List.range c.D).foldl
+    (fun acc z => let v := tget c.irIn (c.row z) x
+      bif isNil v then acc else taxpy (SqrtQ.scale (Q.ofNat c.group.length) v) c.irIn (c.row z) acc)
+    (tfull c.irIn)
+
+/-- subtract `s` at `x∘p` for every `(s, p)` of the group -/
+def subTargets (L : List (List Ir)) (x : List Nat) : List SPerm → Tens L → Tens L
+  | [], t => t
+  | a :: G, t => subTargets L x G (tupd (fun e => e - SqrtQ.ofInt a.1) L t (act x a.2))
 
 /-- (iii) `|G| · (QᵀQ)[x, y] = Σ_{(s,p) ∈ G, x∘p = y} s`, i.e. `QᵀQ` is the group average -/
 def complCheck (c : Cfg) : Bool :=
-  let G := c.group
-  allIdx c.dims fun x => allIdx c.dims fun y =>
-    (SqrtQ.scale (Q.ofNat G.length) (dotSkip c.D (fun z => c.q z x) (fun z => c.q z y))
-      - SqrtQ.ofInt (pavgNum G x y)).isZero
+  allIdxL c.irIn fun x => tallZero c.irIn (subTargets c.irIn x c.group (mRow c x))
 
 /-- number of rows = number of non-cancelling orbits of `reduce_permutation` (C17) -/
 def countCheck (c : Cfg) : Bool := c.D == (reduceCore c.group c.dims).length
 
-/-- `Σ_k Σ_y f(x[k ← y]) · X_k[y, x_k]` : one row of `Q · (X₁⊗1⊗… + … + 1⊗…⊗Xₙ)` -/
-def ksRow : List Mat → List Nat → (List Nat → SqrtQ) → List Nat → SqrtQ
-  | X :: Xs, d :: ds, f, x :: xs =>
-    dotSkip d (fun y => f (y :: xs)) (fun y => X.get y x) + ksRow Xs ds (fun t => f (x :: t)) xs
-  | _, _, _, _ => []
+/-- row `z` of `X_out · Q` -/
+def lhsRow (c : Cfg) (Xo : Mat) (z : Nat) : Tens c.irIn :=
+  (List.range c.D).foldl
+    (fun acc z' => let v := Xo.get z z'; bif isNil v then acc else taxpy v c.irIn (c.row z') acc)
+    (tfull c.irIn)
 
 /-- (iv) `X_out^a · Q = Q · (Kronecker sum of the index generators X^a)` -/
 def interCheck (c : Cfg) (a : Nat) : Bool :=
   let Xo := bdMat a c.irOut
-  let Xs := c.irIn.map (bdMat a)
-  allRange c.D fun z => allIdx c.dims fun x =>
-    (dotSkip c.D (fun z' => c.q z' x) (fun z' => Xo.get z z') - ksRow Xs c.dims (c.q z) x).isZero
+  allRange c.D fun z => teq c.irIn (lhsRow c Xo z) (tks a c.irIn (c.row z))
 
 def parIdx : List (List Ir) → List Nat → Bool
   | irs :: rest, x :: xs => xor (parAt irs x) (parIdx rest xs)
@@ -151,36 +209,28 @@ def parIdx : List (List Ir) → List Nat → Bool
 
 /-- (v) a non-zero entry couples components whose parities multiply to the row's parity -/
 def parityCheck (c : Cfg) : Bool :=
-  allRange c.D fun z => allIdx c.dims fun x => (c.q z x).isZero || parAt c.irOut z == parIdx c.irIn x
+  allRange c.D fun z => allIdxL c.irIn fun x =>
+    isNil (tget c.irIn (c.row z) x) || parAt c.irOut z == parIdx c.irIn x
 
-/-- (vi) the block-diagonal generator restricted to the columns of block `(o, l)` is `so3_generators(l)[a]` placed at
-    rows `o … o+2l`, zero elsewhere -/
-def blockCheck (a : Nat) (irs : List Ir) : Bool :=
-  let n := irDim irs
-  let X := bdMat a irs
-  (blocksFrom 0 irs).all fun ol =>
-    let w := 2 * ol.2 + 1
-    Nat.ble (ol.1 + w) n && all2 n w fun r c =>
-      (X.get r (ol.1 + c) - (bif Nat.ble ol.1 r && Nat.blt r (ol.1 + w) then (so3Gen ol.2 a).get (r - ol.1) c else [])).isZero
+/-! ### `main`: the coefficient polynomials of the FX program are `Σ_x Q[z,x] · x₁[b,x₁] ⋯ xₙ[b,xₙ]` -/
 
-def blocksCheck (c : Cfg) : Bool :=
-  (blockCheck 0 c.irOut && blockCheck 1 c.irOut) && c.irIn.all fun irs => blockCheck 0 irs && blockCheck 1 irs
-
-/-! ### the specification program of `main`: one einsum of `Q` with the inputs (batch `B`) -/
-
-def inputNodes (B : Nat) : Nat → List Nat → List IR.Node
+/-- variable id of component `k` of batch row `b` of each input: input `j` occupies `B·d_j` consecutive ids -/
+def varBases (B b : Nat) : Nat → List (List Ir) → List Nat
   | _, [] => []
-  | base, d :: ds => .input base (B * d) :: inputNodes B (base + B * d) ds
+  | off, s :: L => (off + b * irDim s) :: varBases B b (off + B * irDim s) L
 
-/-- `einsum("z i₁…iₙ, b i₁, …, b iₙ -> b z", Q, x₁, …, xₙ)` : labels `0 = b`, `1 = z`, `k + 2 = i_{k+1}` -/
-def specProg (c : Cfg) (B : Nat) : List IR.Node :=
-  let n := c.nIdx
-  inputNodes B 0 c.dims ++
-    [.const c.Q.flatten,
-     .einsum (B :: c.D :: c.dims) 2
-       ((n, 1 :: (List.range n).map (· + 2)) :: (List.range n).map fun k => (k, [0, k + 2]))]
+/-- the terms `Q[z,x] · Π_k var(base_k + x_k)` in row-major order of `x` (zero coefficients skipped) -/
+def tterms : (L : List (List Ir)) → Tens L → List Nat → Mono → List (Mono × SqrtQ)
+  | [], v, _, m => bif isNil v then [] else [(m, v)]
+  | _ :: _, _, [], _ => []
+  | s :: L, t, base :: bases, m =>
+    (List.range (irDim s)).flatMap fun k => tterms L (t.getD k (tz L)) bases (m ++ [base + k])
+
+def expPoly (c : Cfg) (B b z : Nat) : Poly := tterms c.irIn (c.row z) (varBases B b 0 c.irIn) []
 
 def progCheck (c : Cfg) (B : Nat) (prog : List IR.Node) : Bool :=
-  IR.polysEq (IR.interpPoly prog) (IR.interpPoly (specProg c B))
+  let out := IR.interpPoly prog
+  out.length == B * c.D &&
+    allRange B fun b => allRange c.D fun z => Poly.beq (out.getD (b * c.D + z) []) (expPoly c B b z)
 
 end E3nnVerif.Model.RTP
